@@ -65,7 +65,8 @@ CHECKS = {
              "wrapper and context stack: resolution precedence (explicit > innermost context > default) and totality, "
              "rejection of a missing required argument before anything is sent, exact restoration of the stack on normal and "
              "exceptional exit at any depth, exactly one stop signal on leaving an application block, connection choice for "
-             "chips and BMPs; and, for EVERY decorated method of the two controllers (signature list regenerated from the "
+             "chips and BMPs (on a torus the chosen connection is that of the unique Ethernet chip of the target's board, via "
+             "C19's theorem: C18's kernel is proved equal to C19's); and, for EVERY decorated method of the two controllers (signature list regenerated from the "
              "source by ast and by introspection on every run), every command the method hands to a connection carries the "
              "resolved chip/core/app id (symbolic checker with a once-for-all soundness proof, run over the generated list), "
              "incl. board collections of BMP set_led/set_power (first board addressed, mask of all); kept Context objects "
@@ -117,7 +118,8 @@ CHECKS = {
              "by generality or orthogonal), terminates, is never longer and meets the target or fails with the exact best size; "
              "the try-each-method front ends (one table / many chips, None/int/dict targets, ANY caller-supplied method list; "
              "shape of the front ends and of RoutingTableEntry.__new__ re-extracted by a fail-closed ast dump), the no_raise=False "
-             "and check_for_aliases=False clauses, and refutation witnesses showing the order / methods<>() guards necessary. A verified validator "
+             "and check_for_aliases=False clauses, and refutation witnesses showing the order / source-direction / methods<>() guards necessary (the key-range and "
+             "stray-key-bit clauses are proved unnecessary; generality is defined in the Spec and proved equal to rig's kernel). A verified validator "
              "check_route_eq (cube subtraction, no key enumeration, soundness proved) is evaluated in Coq on every table the "
              "implementation returns. Exact table/alias/error correspondence; brute-force oracle over all keys.",
         ref="4 C04", technique="Coq proof (loop invariant of ordered covering; verified validator) + py2v translation + vm_compute correspondence",
@@ -272,8 +274,8 @@ CHECKS = {
              "per-fill miss sets (per-chip vcpu_base, any initial core states): every flood fill -- also of the bare entry point "
              "flood_fill_aplx, whose effect on the machine is proved -- is well formed and selects exactly the entry's cores (composed from "
              "C12's exactness); normal return implies every requested core holds its binary (waiting or started), others untouched; "
-             "otherwise only the loading error, whose map and message name exactly the unloaded cores after <= n_tries+1 attempts, retries "
-             "only to missing cores -- under no_requested_waiting (+ no_other_waiting in count mode), both proved necessary by refutations "
+             "otherwise only the loading error, whose map and message name exactly the unloaded cores after <= n_tries+1 attempts; the packets "
+             "sent are, per attempt, one flood fill of exactly the cores missing at that moment then verification packets only -- under no_requested_waiting (+ no_other_waiting in count mode), both proved necessary by refutations "
              "replayed on the real code (the known findings). Real controller datagram by datagram against an independent simulator.",
         ref="4 C09", technique="Coq proof (machine/controller refinement, invariant over attempts) + py2v/ast translation + vm_compute correspondence + trace validator",
         note=TB + " SC&MP flood-fill semantics as written in Model/Load.v; guards on binary size (multiple of 4, <= 255 blocks) are stated in the theorems."),
@@ -293,7 +295,8 @@ CHECKS = {
              "nets routed independently, every tree valid for its own net, incl. shared / repeated / twin nets), a re-used "
              "Machine object with in-place fault edits (run_history: every call valid for the fault sets at that call), both "
              "compared with the implementation; their source shape is re-extracted fail-closed (ast of route()'s loop, Machine); "
-             "check_tree is evaluated in Coq on 1200-2500-hop routes.",
+             "check_tree is evaluated in Coq on 1200-2500-hop routes. Corollaries: every chip of a returned tree is a working "
+             "chip; leaf routes are members of Routes; refuted: a childless node need not be a sink's chip after a repair.",
         ref="4 C03", technique="Coq proof (walk/tree induction on C11 geometry, A* closed-set invariant, forest invariant for repairs; verified validators) + vm_compute correspondence + validators on real outputs",
         note=TB + " Python set iteration orders are logged and fed to the model (theorems hold for every order); geometry kernels are the C11 translated units."),
 }
